@@ -258,12 +258,12 @@ fn param_items() -> Vec<corpus::Item> {
 }
 
 pub fn run(ctx: &Ctx) -> Coverage {
-    let k = ctx.tier.pick(6, 8);
+    let k = ctx.tier.pick(7, 9);
     let mut items = corpus::all_items();
     items.extend(corpus::noncore_lark_items());
     items.extend(param_items());
-    items.extend(crate::gen::lark_family(ctx.tier.pick(3, 4)));
-    for (i, s) in jsongen::all_schemas(true).into_iter().enumerate() {
+    items.extend(crate::gen::lark_family(ctx.tier.pick(4, 5)));
+    for (i, s) in jsongen::all_schemas_x(true).into_iter().enumerate() {
         items.push(corpus::Item { name: format!("js{i}"), g: GrammarSpec::Json(s), sentences: vec![], core: true });
     }
     ctx.note(format!("{} grammars", items.len()));
@@ -277,8 +277,8 @@ pub fn run(ctx: &Ctx) -> Coverage {
     // behaviour: lock-step optimised vs unoptimised
     let beh_items: Vec<corpus::Item> = items.iter().filter(|i| !i.sentences.is_empty()).cloned().collect();
     let jobs = make_jobs(&beh_items, &[VKind::Bytes, VKind::Multi2]);
-    let depth = ctx.tier.pick(5, 8);
-    let max_states = ctx.tier.pick(300, 4000);
+    let depth = ctx.tier.pick(7, 9);
+    let max_states = ctx.tier.pick(2000, 10000);
     run_jobs(ctx, &jobs, |job| check_behaviour(ctx, job, depth, max_states));
     ctx.sample(json!({"grammar": "start: a \"!\" ; a[capture]: b ; b: c ; c[capture=\"cc\"]: /[xy]+/", "bound": k}));
     if ctx.get_count("languages_compared") == 0 || ctx.get_count("behaviour_pairs_explored") == 0 || ctx.get_count("grammars_changed_by_optimizer") == 0 {
